@@ -15,12 +15,12 @@ var ErrInjected = errors.New("simconn: injected I/O error")
 // Script is an io.ReadWriter that plays a fixed input stream in chunks and
 // records everything written to it.
 type Script struct {
-	In         []byte
-	Chunks     []int // read sizes, cycled; empty means unlimited
+	In     []byte
+	Chunks []int // read sizes, cycled; empty means unlimited
 	// EOFWithData: the Read that delivers the last bytes also reports io.EOF
 	EOFWithData bool
-	ReadErrAt  int   // offset at which Read fails with ErrInjected (<0: never)
-	WriteErrAt int   // index of the Write call that fails (<0: never)
+	ReadErrAt   int // offset at which Read fails with ErrInjected (<0: never)
+	WriteErrAt  int // index of the Write call that fails (<0: never)
 
 	Pos       int
 	Out       []byte
